@@ -205,6 +205,9 @@ type SegObs struct {
 	Body     []byte `json:"-"`
 	NSamples int    `json:"nsamples"`
 	CType    string `json:"ctype"`
+	// FragFault describes the first fragment of a multi-fragment segment that does not carry the
+	// segment's sequence number or does not start where the previous fragment ended ("" if none)
+	FragFault string `json:"frag_fault,omitempty"`
 }
 
 var earlyRe = regexp.MustCompile(`(-?\d+)ms`)
@@ -240,6 +243,18 @@ func ObserveSeg(resp Resp, r *TLRep) SegObs {
 				return o
 			}
 			o.Tfdt, o.Seq, o.Dur, o.Payload, o.NSamples = si.Tfdt, si.Seq, si.Dur, si.Payload, si.NSamples
+			t := si.Tfdt
+			for k := range si.FragTfdt {
+				if si.FragSeq[k] != si.Seq {
+					o.FragFault = fmt.Sprintf("fragment %d has sequence number %d, the first one %d", k, si.FragSeq[k], si.Seq)
+					break
+				}
+				if si.FragTfdt[k] != t {
+					o.FragFault = fmt.Sprintf("fragment %d starts at %d, the previous one ended at %d", k, si.FragTfdt[k], t)
+					break
+				}
+				t += si.FragDur[k]
+			}
 		}
 		for i, s := range r.Segs {
 			if s.Payload == o.Payload {
